@@ -87,7 +87,8 @@ func (g *gen) choose(ws ...int) int {
 }
 
 var intLits = []string{"0", "1", "2", "3", "-1", "10", "2147483647", "2147483648", "-2147483648", "-2147483649", "9223372036854775807", "-9223372036854775807", "9007199254740993", "4611686018427387904", "100", "7"}
-var numLits = []string{"0.5", "1.5", "2.5", "-0.5", "1.0", "4.0", "0.1", "1e2", "1e308", "5e-324", "1e21", "1e-7", "3.7", "2.9", "-2.5", "9.007199254740993e15", "9223372036854775808.0", "0.0"}
+var numLits = []string{"0.5", "1.5", "2.5", "-0.5", "1.0", "4.0", "0.1", "1e2", "1e308", "5e-324", "1e21", "1e-7", "3.7", "2.9", "-2.5", "9.007199254740993e15", "9223372036854775808.0", "0.0",
+	"0.9999999999", "1.0000000001", "2.9999999999", "-0.9999999999", "1.9999999999999998", "0.49999999999999994", "2147483647.5", "-2147483648.5", "1E2", "1.0E2", "5E-1"}
 
 func quoteStr(s string) string {
 	// JSON-style quoting is read back identically by the path lexer for these pools
@@ -189,7 +190,11 @@ func (g *gen) subscriptExpr(sc scope) string {
 	case 2:
 		return "last - " + strconv.Itoa(g.r.Intn(4))
 	case 3:
-		return g.pick([]string{"0.5", "1.9", "-0.9", "2.5", "1e0", "\"1\"", "null", "2147483648", "-2147483649", "1/0", "$.a", "@", "true"})
+		if sc.inFilter && g.pct(50) {
+			return g.pick([]string{"@." + g.keyText(), "@", "@." + g.keyText() + " - 1", "last - @." + g.keyText(), "@.size() - 1"})
+		}
+		return g.pick([]string{"0.5", "1.9", "-0.9", "2.5", "1e0", "\"1\"", "null", "2147483648", "-2147483649", "1/0", "$.a", "@", "true",
+			"0.9999999999", "1.9999999999", "2.9999999999", "-0.9999999999", "1.0000000001", "last - 0.0000000001", "0.29 * 100 - 27", "$." + g.keyText()})
 	default:
 		if sc.depth > 0 {
 			return g.expr(sc)
@@ -199,6 +204,10 @@ func (g *gen) subscriptExpr(sc scope) string {
 }
 
 func (g *gen) subscripts(sc scope) string {
+	if g.pct(8) {
+		// a list whose later subscript uses `last`, followed (by the caller) by whatever comes next
+		return g.pick([]string{"[0, last]", "[0, 1 to last]", "[0, last - 1]", "[last, 0]", "[0 to last, last]"})
+	}
 	n := 1 + g.choose(6, 3, 1)
 	parts := make([]string, n)
 	for i := range parts {
@@ -376,7 +385,37 @@ var cmpOps = []string{"==", "!=", "<>", "<", "<=", ">", ">="}
 var regexPool = []string{"^a", "b$", "a.c", ".*", "[0-9]+", "^$", "A", "a|b", "(", "\\d", "a.b", "é"}
 var flagPool = []string{"", "i", "s", "m", "q", "iq", "is", "ism", "x", "z"}
 
+// contextProbe returns a condition that evaluates something context-changing first (a nested
+// filter, a nested subscript, a probing exists, a hard error swallowed by `is unknown`) and reads
+// the context (@, last) afterwards.
+func (g *gen) contextProbe(sc scope) string {
+	k1, k2 := g.keyText(), g.keyText()
+	changers := []string{
+		"(exists(@." + k1 + " ? (@ == $undef))) is unknown",
+		"(@." + k1 + " == $undef) is unknown",
+		"exists(@." + k1 + " ? (@ > 0))",
+		"exists(@[0]." + k1 + ")",
+		"exists(@." + k1 + "[*] ? (@ == @))",
+		"(@." + k1 + "[last] == 1) is unknown",
+		"!(exists(@." + k1 + "." + k2 + "))",
+		"(@." + k1 + ".datetime() < \"2024-01-01\".date()) is unknown",
+		"exists(@.keyvalue())",
+	}
+	readers := []string{"@." + k2 + " == 1", "@." + k2 + " > 0", "exists(@." + k2 + ")", "@.type() == \"object\"", "@ == @", "@." + k2 + " starts with \"a\""}
+	op := " && "
+	if g.pct(30) {
+		op = " || "
+	}
+	if g.pct(50) {
+		return g.pick(changers) + op + g.pick(readers)
+	}
+	return "(" + g.pick(changers) + ")" + op + "(" + g.pick(readers) + ")"
+}
+
 func (g *gen) predicate(sc scope) string {
+	if sc.inFilter && g.pct(6) {
+		return g.contextProbe(sc)
+	}
 	s := sc
 	s.depth--
 	ws := []int{12, 4, 4, 3, 3, 3, 2, g.p.wRegex}
@@ -385,6 +424,14 @@ func (g *gen) predicate(sc scope) string {
 	}
 	switch g.choose(ws...) {
 	case 0:
+		if sc.inFilter && g.pct(10) {
+			k := g.keyText()
+			anchor := "$"
+			if g.pct(30) {
+				anchor = g.variable()
+			}
+			return "@." + g.keyText() + " " + g.pick(cmpOps) + " " + anchor + "." + k + "[@." + g.keyText() + "]"
+		}
 		return g.expr(s) + " " + g.pick(cmpOps) + " " + g.expr(s)
 	case 1:
 		return g.predOperand(s) + " && " + g.predOperand(s)
@@ -446,9 +493,9 @@ func (g *gen) path() string {
 
 // ---- documents -------------------------------------------------------------
 
-var floatPool = []float64{0, 1, -1, 2, 3, 10, 0.5, 1.5, 2.5, -2.5, -0.5, 3.7, 1e2, 2147483647, 2147483648, -2147483648, -2147483649,
+var floatPool = []float64{0, 1, -1, 2, 3, 10, 0.5, 1.5, 2.5, -2.5, -0.5, 3.7, 1e2, 0.9999999999, 1.0000000001, 2.9999999999, -0.9999999999, 0.49999999999999994, 2147483647.5, 2147483647, 2147483648, -2147483648, -2147483649,
 	9007199254740992, 9007199254740993, 9223372036854775807, 9223372036854775808, -9223372036854775808, 1e19, 1e21, 1e308, 5e-324, 1e-7, 0.1, 100, 7, 4611686018427387904}
-var jnumPool = []string{"0", "1", "-1", "2", "3", "10", "0.5", "1.5", "2.5", "-2.5", "1e2", "1E2", "2147483647", "2147483648", "-2147483649",
+var jnumPool = []string{"0", "1", "-1", "2", "3", "10", "0.5", "1.5", "2.5", "-2.5", "1e2", "1E2", "1E+2", "-1E3", "5E-1", "1.0E2", "1e+2", "0.0", "-0.0", "2.9999999999", "0.9999999999", "1.50", "100e-2", "2147483647", "2147483648", "-2147483649",
 	"9007199254740993", "9223372036854775807", "9223372036854775808", "-9223372036854775808", "-9223372036854775809", "1e19", "1e308", "5e-324", "1e-7", "0.1", "100", "1.0", "-0", "4611686018427387904", "12345678901234567890"}
 var jnumWeird = []string{"1e400", "-1e400", "1e-400", "1e999999", "123456789012345678901234567890"}
 
